@@ -20,6 +20,12 @@ def V(vid, prop, rule, edits, contains=''):
         'expect': {'rule': rule, 'contains': contains}})
 
 
+V('c04-array-param-not-per-item', 'C04', 'C04.R6',
+  ('pywbem/_cim_operations.py',
+   "                return _cim_xml.VALUE_ARRAY([paramvalue(x) for x in obj])\n",
+   "                return _cim_xml.VALUE_ARRAY([_cim_xml.VALUE(atomic_to_cim_xml(x)) for x in obj])\n"),
+  'array-items')
+
 # ---- C05 ------------------------------------------------------------------
 V('c05-eq-drop-propagated', 'C05', 'C05.R1',
   (OBJ, "                _eq_item(self.array_size, other.array_size) and\n"
